@@ -293,3 +293,69 @@ pub fn same_control_points(a: &[rosu_map::section::hit_objects::PathControlPoint
                 }
         })
 }
+
+/// Field-by-field equality of control points, independent of the library's `PartialEq` impls (f64 fields compared as
+/// plain values, so -0.0 equals 0.0 as before).
+pub trait FieldEq {
+    fn feq(&self, o: &Self) -> bool;
+}
+use rosu_map::section::timing_points::{DifficultyPoint, EffectPoint, SamplePoint, TimingPoint};
+impl FieldEq for TimingPoint {
+    fn feq(&self, o: &Self) -> bool {
+        self.time == o.time
+            && self.beat_len == o.beat_len
+            && self.omit_first_bar_line == o.omit_first_bar_line
+            && self.time_signature.numerator.get() == o.time_signature.numerator.get()
+    }
+}
+impl FieldEq for DifficultyPoint {
+    fn feq(&self, o: &Self) -> bool {
+        self.time == o.time && self.slider_velocity == o.slider_velocity && self.generate_ticks == o.generate_ticks
+    }
+}
+impl FieldEq for EffectPoint {
+    fn feq(&self, o: &Self) -> bool {
+        self.time == o.time && self.kiai == o.kiai && self.scroll_speed == o.scroll_speed
+    }
+}
+impl FieldEq for SamplePoint {
+    fn feq(&self, o: &Self) -> bool {
+        self.time == o.time
+            && self.sample_bank as i32 == o.sample_bank as i32
+            && self.sample_volume == o.sample_volume
+            && self.custom_sample_bank == o.custom_sample_bank
+    }
+}
+/// lists differ by the library's `PartialEq` or field by field
+pub fn lists_differ<T: FieldEq + PartialEq>(a: &[T], b: &[T]) -> bool {
+    a != b || a.len() != b.len() || a.iter().zip(b).any(|(x, y)| !x.feq(y))
+}
+pub fn opts_differ<T: FieldEq + PartialEq>(a: Option<&T>, b: Option<&T>) -> bool {
+    a != b
+        || match (a, b) {
+            (None, None) => false,
+            (Some(x), Some(y)) => !x.feq(y),
+            _ => true,
+        }
+}
+
+use rosu_map::section::hit_objects::hit_samples::{HitSampleInfo, HitSampleInfoName};
+/// Field-by-field equality of sample lists (independent of the library's `PartialEq` impls).
+pub fn same_samples(a: &[HitSampleInfo], b: &[HitSampleInfo]) -> bool {
+    a.len() == b.len()
+        && a.iter().zip(b).all(|(x, y)| {
+            (match (&x.name, &y.name) {
+                (HitSampleInfoName::Default(p), HitSampleInfoName::Default(q)) => *p as i32 == *q as i32,
+                (HitSampleInfoName::File(p), HitSampleInfoName::File(q)) => p.as_bytes() == q.as_bytes(),
+                _ => false,
+            }) && x.bank as i32 == y.bank as i32
+                && x.suffix.map(|s| s.get()) == y.suffix.map(|s| s.get())
+                && x.volume == y.volume
+                && x.custom_sample_bank == y.custom_sample_bank
+                && x.bank_specified == y.bank_specified
+                && x.is_layered == y.is_layered
+        })
+}
+pub fn same_node_samples(a: &[Vec<HitSampleInfo>], b: &[Vec<HitSampleInfo>]) -> bool {
+    a.len() == b.len() && a.iter().zip(b).all(|(x, y)| same_samples(x, y))
+}
